@@ -112,12 +112,22 @@ class Base:
             return i.rstrip() == " ".join(f[:3]) and f[0] == f[2]
         wpart = {"name": "printed-words", "harness": "rword", "driver": "rword", "cases": wcases, "compare": wcmp,
                  "nontrivial": lambda c: True, "distribution": {"texts": len(wcases)}}
-        return ([hpart] if hpart else []) + [wpart] + [{"name": "programs-x-configs", "harness": "rt", "driver": None, "cases": cases, "impl_ok": impl_ok, "chunk": 40,
+        # the printer's notation for parameter expansions (print_pexp, the model in which F64 is a theorem): nodes built from every
+        # combination of braces, names (ordinary, positional, special), operators (none, the fourteen, the length form) and words
+        names = ["x", "10", "#", "?", "-", "@", "*", "0", "_a1", "\u00e9"]
+        ops = ["", ":-", "-", ":=", "=", ":?", "?", ":+", "+", "%", "%%", "#", "##"]
+        pcases = ["%d\t%s\t%s\t%s" % (b_, hx(n_), hx(o_), w_) for b_ in (0, 1) for n_ in names for o_ in ops
+                  for w_ in ("-", "", hx("w"), hx("a b"), hx("*.c"), hx("}"))]
+        ppart = {"name": "parameter-notation", "harness": "pexp", "driver": "pexp", "cases": pcases,
+                 "nontrivial": lambda c: True, "distribution": {"nodes": len(pcases)}}
+        return ([hpart] if hpart else []) + [wpart, ppart] + [{"name": "programs-x-configs", "harness": "rt", "driver": None, "cases": cases, "impl_ok": impl_ok, "chunk": 40,
                  "nontrivial": lambda c: len(c.split("\t")[0]) > 8,
                  "distribution": {"programs": len(progs), "all_256_configs_on": sum(1 for c in cases if "\tall\t" in c), "pairwise_16_on": sum(1 for c in cases if "\tall\t" not in c)}}]
 
     def describe(self, part, case):
         f = case.split("\t")
+        if len(f) == 4:
+            return "printer's notation for ParamExp{Braces:%s Name:%r Op:%r Word:%s}" % (f[0], unhx(f[1]).decode("utf-8", "replace"), unhx(f[2]).decode(), "nil" if f[3] == "-" else repr(unhx(f[3]).decode()))
         return "print/parse round trip of %r under configs %s" % (unhx(f[0]).decode("utf-8", "replace"), f[1])
 
     def classify(self, part, case, impl, model, judge, findings):
